@@ -7,10 +7,13 @@ import (
 	"os"
 
 	"verif/harness/page"
+	"verif/harness/world"
 )
 
 var commands = map[string]func(args []string){
-	"page": page.Run,
+	"page":         page.Run,
+	"world":        world.RunCmd,
+	"world-worker": world.WorkerCmd,
 }
 
 func main() {
